@@ -1281,13 +1281,17 @@ func (b *kvBox[K, V]) CheckState() *Viol {
 				}
 			}
 		}
-		seenV := map[V]K{}
+		// (values are the same when the map's own value discipline says so - the value comparator of a
+		// TreeBidiMap, == for a HashBidiMap: -0 and +0 are two values under a total order on floats)
+		var seenV []kvEnt[K, V]
 		for _, k := range b.a.keys() {
 			v, _ := b.a.get(k)
-			if k0, dup := seenV[v]; dup {
-				return viol(tag("C10"), "invariant", "keys %v and %v share the value %v", k0, k, v)
+			for _, e := range seenV {
+				if b.sameV(e.v, v) {
+					return viol(tag("C10"), "invariant", "keys %v and %v share the value %v", e.k, k, v)
+				}
 			}
-			seenV[v] = k
+			seenV = append(seenV, kvEnt[K, V]{k: k, v: v})
 		}
 	}
 	// independent walk over the exported structure
